@@ -147,7 +147,7 @@ def St.empty : St := ⟨[], [], [], []⟩
 
 def St.listeners (st : St) : List Listener := st.subs ++ st.direct
 
-inductive Outcome | ok | typeError | optionsError | keyError
+inductive Outcome | ok | typeError | optionsError | keyError | attributeError
   deriving DecidableEq, Repr
 
 structure Res where
@@ -354,6 +354,30 @@ def processDeferred (st : St) : Res :=
 
 /-! ### histories -/
 
+/-! ### `merge` (command-line values): None is skipped, a list is APPENDED to the option's current list -/
+
+/-- the `toset` dict of `OptManager.merge(opts)`; errors: `getattr` of an unknown option (AttributeError),
+    `current + list` when the current value is not a list (TypeError) -/
+def mergeVals (s : Store) : List (Name × Val) → Except Outcome (List (Name × Val))
+  | [] => .ok []
+  | (k, v) :: r =>
+    match v with
+    | .a .none => mergeVals s r
+    | .seq xs =>
+      match lookup s k with
+      | none => .error .attributeError
+      | some o =>
+        match o.cur with
+        | .seq cur => (mergeVals s r).map ((k, Val.seq (cur ++ xs)) :: ·)
+        | .a _ => .error .typeError
+    | v => (mergeVals s r).map ((k, v) :: ·)
+
+/-- `OptManager.merge(opts)` -/
+def merge (st : St) (kvs : List (Name × Val)) : Res :=
+  match mergeVals st.opts kvs with
+  | .error e => ⟨st, e, [], []⟩
+  | .ok toset => update st toset
+
 inductive Op
   | addOption (n : Name) (ty : Ty) (d : Val)
   | subscribe (l : Listener)
@@ -363,6 +387,7 @@ inductive Op
   | set (specs : List (Name × Option PyStr)) (defer : Bool)
   | processDeferred
   | reset
+  | merge (kvs : List (Name × Val))
 
 def step (st : St) : Op → Res
   | .addOption n ty d => addOption st n ty d
@@ -373,6 +398,7 @@ def step (st : St) : Op → Res
   | .set specs defer => setSpecs st specs defer
   | .processDeferred => processDeferred st
   | .reset => reset st
+  | .merge kvs => merge st kvs
 
 /-- run a history; returns the final state and every listener call made on the way -/
 def runFrom (st : St) : List Op → St × List Obs
@@ -491,6 +517,11 @@ def processDeferredN (st : St) : Res :=
       { r with st := { r.st with deferred := r.st.deferred.filter fun p => !(upd.any (·.1 == p.1)) } }
     else r
 
+def mergeN (st : St) (kvs : List (Name × Val)) : Res :=
+  match mergeVals st.opts kvs with
+  | .error e => ⟨st, e, [], []⟩
+  | .ok toset => updateN st toset
+
 def stepN (st : St) : Op → Res
   | .addOption n ty d => addOptionN st n ty d
   | .subscribe l => subscribe st l
@@ -500,6 +531,7 @@ def stepN (st : St) : Op → Res
   | .set specs defer => setSpecsN st specs defer
   | .processDeferred => processDeferredN st
   | .reset => resetN st
+  | .merge kvs => mergeN st kvs
 
 def runFromN (st : St) : List Op → St × List Obs
   | [] => (st, [])
@@ -509,6 +541,101 @@ def runFromN (st : St) : List Op → St × List Obs
     (y.1, x.obs ++ y.2)
 
 def runN (ops : List Op) : St × List Obs := runFromN St.empty ops
+
+/-! ### config-file paths: `optmanager.relative_path` (the `scripts` entries of a config file are made relative
+    to that file by `load(opts, text, cwd)`), with the pathlib / posixpath pieces it is made of -/
+
+def spanNotSlash : PyStr → PyStr × PyStr
+  | [] => ([], [])
+  | c :: r => if c == 47 then ([], c :: r) else (c :: (spanNotSlash r).1, (spanNotSlash r).2)
+
+def rstripSlashP (s : PyStr) : PyStr := (s.reverse.dropWhile (· == 47)).reverse
+
+/-- `posixpath.expanduser`; `home` = `$HOME` (or the current user's pw_dir), `pw` = the password database.
+    `none` = ValueError (embedded NUL in the user name). The same function as `C45.expandUser`. -/
+def expandUserP (home : Option PyStr) (pw : PyStr → Option PyStr) (p : PyStr) : Option PyStr :=
+  match p with
+  | 126 :: r =>
+    let name := (spanNotSlash r).1
+    let rest := (spanNotSlash r).2
+    if name.isEmpty then
+      match home with
+      | none => some p
+      | some h => let x := rstripSlashP h ++ rest; some (if x.isEmpty then [47] else x)
+    else if name.contains 0 then none
+    else
+      match pw name with
+      | none => some p
+      | some h => let x := rstripSlashP h ++ rest; some (if x.isEmpty then [47] else x)
+  | _ => some p
+
+/-- a parsed `PurePosixPath`: root (`""`, `"/"` or `"//"`) and the components -/
+structure PPath where
+  root : PyStr
+  parts : List PyStr
+  deriving DecidableEq
+
+def splitSlash : PyStr → List PyStr
+  | [] => [[]]
+  | c :: r =>
+    if c == 47 then [] :: splitSlash r
+    else match splitSlash r with
+      | h :: t => (c :: h) :: t
+      | [] => [[c]]
+
+/-- `PurePosixPath(s)`: `posixpath.splitroot`, then the components that are neither empty nor `.` -/
+def parsePath (s : PyStr) : PPath :=
+  let rr : PyStr × PyStr :=
+    match s with
+    | 47 :: 47 :: 47 :: r => ([47], 47 :: 47 :: r)
+    | 47 :: 47 :: r => ([47, 47], r)
+    | 47 :: r => ([47], r)
+    | r => ([], r)
+  ⟨rr.1, (splitSlash rr.2).filter fun x => !x.isEmpty && x != [46]⟩
+
+def joinParts : List PyStr → PyStr
+  | [] => []
+  | [a] => a
+  | a :: r => a ++ 47 :: joinParts r
+
+/-- `str(path)` -/
+def PPath.str (p : PPath) : PyStr :=
+  if !p.root.isEmpty then p.root ++ joinParts p.parts
+  else if p.parts.isEmpty then [46] else joinParts p.parts
+
+/-- `a / b` -/
+def pjoin (a b : PPath) : PPath := if !b.root.isEmpty then b else ⟨a.root, a.parts ++ b.parts⟩
+
+inductive PathErr | value | runtime      -- ValueError (NUL in a user name) / RuntimeError("Could not determine home directory.")
+  deriving DecidableEq
+
+/-- `Path.expanduser()` -/
+def pExpandUser (home : Option PyStr) (pw : PyStr → Option PyStr) (p : PPath) : Except PathErr PPath :=
+  if !p.root.isEmpty then .ok p
+  else match p.parts with
+    | [] => .ok p
+    | f :: t =>
+      if f.head? = some 126 then
+        match expandUserP home pw f with
+        | none => .error .value
+        | some h =>
+          if h.head? = some 126 then .error .runtime
+          else .ok ⟨(parsePath h).root, (parsePath h).parts ++ t⟩
+      else .ok p
+
+/-- `Path.absolute()` with `os.getcwd() = cwd` -/
+def pAbsolute (cwd : PyStr) (p : PPath) : PPath := if !p.root.isEmpty then p else pjoin (parsePath cwd) p
+
+/-- `optmanager.relative_path(script_path, relative_to=rel)` -/
+def relativePath (home : Option PyStr) (pw : PyStr → Option PyStr) (cwd rel path : PyStr) : Except PathErr PPath :=
+  let sp := parsePath path
+  match pExpandUser home pw sp with
+  | .error e => .error e
+  | .ok e1 =>
+    let sp2 := if e1.str != sp.str && sp.root.isEmpty then pAbsolute cwd e1 else sp
+    match pExpandUser home pw sp2 with
+    | .error e => .error e
+    | .ok e2 => .ok (pAbsolute cwd (pjoin (parsePath rel) e2))
 
 /-! ### config file -/
 
